@@ -50,6 +50,7 @@ def plan(tier, seed):
                 if nac != "gonze":
                     for lang in ("C", "Py"):
                         g.append({"part": "ddm", "xtal": name, "S": S, "layout": layout, "nac": nac, "lang": lang})
+                        g.append({"part": "ddm", "xtal": name, "S": S, "layout": layout, "nac": nac, "lang": lang, "fck": "asym"})
                 for route in ("analytic", "fd-1e-4", "fd-1e-5") if nac != "gonze" else ("gonze-fd",):
                     g.append({"part": "gv", "xtal": name, "S": S, "layout": layout, "nac": nac, "route": route})
         for gexp in ((0.5, 1.7, -0.4) if tier == "quick" else (0.5, 1.7, -0.4, 0.0, 3.0)):
@@ -75,7 +76,7 @@ def _nac(ph, name, method, seed):
 
 
 def setup(case, seed, st, **kw):
-    key = (case.get("layout", "full"), case.get("nac"), tuple(sorted(kw.items())))
+    key = (case.get("layout", "full"), case.get("nac"), case.get("fck", "sym"), tuple(sorted(kw.items())))
     if key not in st:
         c = phx.xtal(case["xtal"])
         ph = phx.make_phonopy(c, case["S"], None, **kw)
@@ -85,6 +86,12 @@ def setup(case, seed, st, **kw):
             st["fc"] = phx.supercell_fc(ph, mdl)
             st["exact_range"] = bool(mdl.rc < 0.5 * SP.shortest_lattice_vector(np.asarray(ph.supercell.cell)))
         fc = st["fc"]
+        if case.get("fck") == "asym":
+            # force constants without index-permutation symmetry (what an unsymmetrised fit gives): a periodic random part
+            from checks.c07 import expand
+
+            g = np.random.default_rng(55 + seed)
+            fc = fc + 0.05 * np.abs(fc).max() * expand(ph, g.normal(size=(len(ph.primitive), len(ph.supercell), 3, 3)))
         if case.get("layout") == "compact":
             fc = fc[np.asarray(ph.primitive.p2s_map)]
         ph.force_constants = np.array(fc, dtype="double", order="C")
@@ -107,7 +114,7 @@ def run_ddm(case, seed, st):
     from phonopy.harmonic.derivative_dynmat import DerivativeOfDynamicalMatrix
 
     ph = setup(case, seed, st)
-    tag = "%s/nac=%s/%s" % (case["lang"], case["nac"], case["layout"])
+    tag = "%s/nac=%s/%s%s" % (case["lang"], case["nac"], case["layout"], "/fc-without-permutation-symmetry" if case.get("fck") == "asym" else "")
     L = np.asarray(ph.primitive.cell)
     if case["lang"] == "Py" and case["layout"] == "compact":
         return dict(ok=True, skipped="Python derivative accepts the full layout only")
@@ -129,7 +136,7 @@ def run_ddm(case, seed, st):
             a = int(np.abs(got - num).reshape(3, -1).max(axis=1).argmax())
             return dict(ok=False, sig="C12/ddm-vs-numerical/" + tag, resid=float(e), nontrivial=True,
                         msg="%s q=%s: dD/dq_%s differs from the numerical derivative of D(q) by %.3g (rel)" % (case["xtal"], q.tolist(), "xyz"[a], e))
-        if not case["nac"] and st.get("exact_range"):
+        if not case["nac"] and st.get("exact_range") and case.get("fck") != "asym":
             p = ph.primitive
             ref = SP.dynmat_gradient(np.asarray(p.cell), p.positions, p.symbols, p.masses, q, st["mdl"])
             # make_Hermitian of the derivative: compare Hermitian parts
@@ -138,6 +145,23 @@ def run_ddm(case, seed, st):
             if e2 > 1e-9:
                 return dict(ok=False, sig="C12/ddm-vs-closed-form/" + tag, resid=float(e2), nontrivial=True,
                             msg="%s q=%s: dD/dq differs from the closed-form gradient of the lattice sum by %.3g" % (case["xtal"], q.tolist(), e2))
+    # the same q-points as rows of arrays in other memory layouts
+    from vtk.alphabet import qsets as QL
+
+    qarr = np.array(qset(seed), float)
+    refs = []
+    for q in qarr:
+        ddm.run(q, lang=case["lang"])
+        refs.append(np.array(ddm.d_dynamical_matrix))
+    for lname, qa in QL.layouts(qarr).items():
+        if not isinstance(qa, np.ndarray):
+            continue
+        for k in range(len(qarr)):
+            ddm.run(qa[k], lang=case["lang"])
+            e = np.abs(np.array(ddm.d_dynamical_matrix) - refs[k]).max() / max(np.abs(refs[k]).max(), 1e-9)
+            if e > 1e-12:
+                return dict(ok=False, sig="C12/ddm-q-layout/" + tag, resid=float(e), nontrivial=True,
+                            msg="%s: dD/dq at q=%s given as a row of a %s array differs from the same q as a fresh array by %.3g" % (case["xtal"], qarr[k].tolist(), lname, e))
     if case["nac"]:
         for nd in ([1.0, 0, 0], [0.2, 0.7, -0.4]):
             ddm.run(np.zeros(3), q_direction=np.array(nd), lang=case["lang"])
@@ -158,6 +182,22 @@ def run_gv(case, seed, st):
     ph.run_qpoints(qs, with_group_velocities=True)
     d = ph.get_qpoints_dict()
     gv, fr = np.array(d["group_velocities"]), np.array(d["frequencies"])
+    from vtk.alphabet import qsets as QL
+
+    for lname, qa in QL.layouts(np.array(qs, float)).items():
+        ph.run_qpoints(qa, with_group_velocities=True)
+        g2 = np.array(ph.get_qpoints_dict()["group_velocities"])
+        e = np.abs(g2 - gv).max() / max(np.abs(gv).max(), 1e-9)
+        if e > 1e-9:
+            return dict(ok=False, sig="C12/gv-q-layout/" + tag, resid=float(e), nontrivial=True,
+                        msg="%s: group velocities for the q-points given as %s differ from those for a fresh array by %.3g" % (case["xtal"], lname, e))
+        if isinstance(qa, np.ndarray) and case["route"] != "gonze-fd":
+            k = len(qs) - 1
+            g1 = np.array(ph.get_group_velocity_at_q(qa[k]))
+            e = np.abs(g1 - gv[k]).max() / max(np.abs(gv).max(), 1e-9)
+            if e > 1e-9:
+                return dict(ok=False, sig="C12/gv-q-layout/" + tag, resid=float(e), nontrivial=True,
+                            msg="%s: get_group_velocity_at_q(row of a %s array) differs from run_qpoints by %.3g" % (case["xtal"], lname, e))
     nb = fr.shape[1]
     skipped = 0
     worst = 0.0
